@@ -22,7 +22,23 @@ ITERATIVE = ("van_leer", "exact")
 PFLOOR = Fraction(1, 10**20)
 
 
-def _inputs(cov=False):
+def _inputs(cov=False, slice_=False):
+    if slice_:
+        # a slice of the input space on which z3 decides most paths: the
+        # right state is (rho, p) = (1, 5/7) and gamma = 7/5, so that its
+        # Lagrangian sound speed gamma*p*rho is the square 1; the left state
+        # and both velocities stay symbolic (4 real variables)
+        G = rv(Fraction(7, 5))
+        al, kl = z3.Real("al"), z3.Real("kl")
+        return dict(rhol=SReal(al * al), rhor=SReal(rv(1)),
+                    pl=SReal(kl * kl / (G * al * al)),
+                    pr=SReal(rv(Fraction(5, 7))), ul=real("ul"),
+                    ur=real("ur"), gamma=SReal(G),
+                    roots=[al, kl, rv(1), kl / (al * al)], pos=[al, kl])
+    return _inputs_general(cov)
+
+
+def _inputs_general(cov=False):
     """cov: change of variables that makes every sqrt argument of the
     solvers a registered square: rho = a^2, gamma*p*rho = k^2 (a bijection
     of the admissible domain rho, p > 0 onto a, k > 0)."""
@@ -123,6 +139,35 @@ sys.exit(common.replay_exit(bad))
 '''
 
 
+def _hunt(c, pairs, timeout_ms=8000):
+    sv = z3.Solver()
+    sv.set("timeout", timeout_ms)
+    for p_ in c.pc:
+        sv.add(p_)
+    if str(sv.check()) != "sat":
+        return None
+    m0 = sv.model()
+    names = ("gamma", "ar", "al", "kr", "kl", "ul", "ur", "rhol", "rhor",
+             "pl", "pr")
+    fixed = []
+    for d in m0.decls():
+        if d.name() in names:
+            val = m0[d]
+            if z3.is_algebraic_value(val):
+                val = val.approx(20)
+            fixed.append(z3.Real(d.name()) == val)
+    for keep in (1, 2):
+        if len(fixed) <= keep:
+            break
+        for off in range(min(3, len(fixed))):
+            g = fixed[off:] + fixed[:off]
+            r, model = c.prove_eqs(pairs, timeout_ms=timeout_ms,
+                                   guard=z3.And(*g[keep:]))
+            if r == "sat":
+                return model
+    return None
+
+
 def _vals(model, v):
     return [float(model_value(model, v[k].t)) for k in
             ("rhol", "rhor", "pl", "pr", "ul", "ur", "gamma")]
@@ -130,17 +175,18 @@ def _vals(model, v):
 
 def unit_solver(name, niter=1, tol=1e-6, timeout_ms=60000, fork_minmax=False,
                 deadline_s=None, kinds=("symmetry", "equal_states",
-                                        "dispatch"), cov=False):
+                                        "dispatch"), cov=False, slice_=False):
     common.use_repo()
     import pysph.sph.gas_dynamics.riemann_solver as R
     f = getattr(R, name)
     idx = SOLVERS.index(name)
     stats = Stats()
-    out = dict(unit="%s niter=%d kinds=%s%s%s" % (
+    out = dict(unit="%s niter=%d kinds=%s%s%s%s" % (
         name, niter, ",".join(kinds), " cov" if cov else "",
-        " fork" if fork_minmax else ""),
+        " fork" if fork_minmax else "",
+        " slice(gamma=7/5, right state rho=1 p=5/7)" if slice_ else ""),
                obligations=0, discharged=0, undecided=[], outcomes={})
-    v = _inputs(cov)
+    v = _inputs(cov, slice_)
     ncex = [0]
     t_start = time.time()
 
@@ -196,6 +242,15 @@ def unit_solver(name, niter=1, tol=1e-6, timeout_ms=60000, fork_minmax=False,
                     out["obligations"] += 1
                     r, model = path.ctx.prove_eqs(
                         [(a[0], b[0]), (a[1], -b[1])], timeout_ms=timeout_ms)
+                    if r == "unknown":
+                        # counter-example hunt on lines through a point of
+                        # the path: a model of the path condition fixes all
+                        # but one or two inputs (a sat answer is a genuine
+                        # counter-example; unsat on the line proves nothing)
+                        model = _hunt(path.ctx, [(a[0], b[0]),
+                                                 (a[1], -b[1])])
+                        if model is not None:
+                            r = "sat"
                     if r == "unsat":
                         out["discharged"] += 1
                     elif r == "sat":
@@ -299,6 +354,12 @@ def main():
         add(s_, ("symmetry",))
     for s_ in ("hllsy", "hlle"):
         add(s_, ("symmetry",), cov=True, fork_minmax=True)
+    for s_ in ("hllc", "hll_ball", "ducowicz", "van_leer", "exact"):
+        # bug-hunting slice (4 symbolic reals): decided paths are claims on
+        # the slice only, undecided ones are listed
+        add(s_, ("symmetry",), cov=True, fork_minmax=True, slice_=True,
+            timeout_ms=10000 if t == "quick" else 60000,
+            deadline_s=170 if t == "quick" else 1500)
     if t == "thorough":
         # attempted, time-boxed: what stays unknown is reported undecided
         for s_ in ("hllc", "hll_ball", "ducowicz", "van_leer", "exact"):
@@ -314,6 +375,14 @@ def main():
                       symmetry_attempted_thorough_only=[
                           "hllc", "hll_ball", "ducowicz", "van_leer",
                           "exact"],
+                      symmetry_on_slice=dict(
+                          solvers=["hllc", "hll_ball", "ducowicz",
+                                   "van_leer", "exact"],
+                          slice="gamma = 7/5, right state rho = 1, p = 5/7; "
+                          "left state and both velocities symbolic",
+                          note="time-boxed; a path whose query stays "
+                          "unknown is followed by a counter-example hunt on "
+                          "lines through a model of the path condition"),
                       query_timeout_ms=cap, unit_deadline_s=dl,
                       numeric_domain="exact reals; sqrt = non-negative root, "
                       "pow uninterpreted")
